@@ -9,7 +9,9 @@ EXPLANATION = ("Contradiction and wiring rules over the resolved program: every 
                "(V1); the error codes a rule function's documentation states are exactly the code literals its "
                "body passes to the error constructors (V2); repetition limits tested by a rule are reachable, "
                "i.e. not pre-empted by a smaller cap in the parser (V5); guard formulas are compared between "
-               "sibling implementations of the same rule in the thorough tier (V4s). Arithmetic rules (sums, "
+               "sibling implementations of the same rule in the thorough tier (V4s); the value helpers a rule calls "
+               "(codes extracted from a narrative, currency getters, sums) are compared with the reviewed reference "
+               "(U6/U7 on rule helpers). Arithmetic rules (sums, "
                "epsilons) and the faithfulness of the SR2025 text itself are not decided.")
 ASSUMPTIONS = ["the rule text and error code in each function's doc comment are the documented rule"]
 
@@ -57,10 +59,13 @@ def v5(rep, F, tms):
                 if n.get("k") == "let" and n["pat"].get("k") == "bind" and n.get("init") is not None:
                     lets[n["pat"]["id"]] = n["init"]
             for n in walk(b["body"]):
-                if n.get("k") == "bin" and n.get("op") in (">", ">="):
+                if n.get("k") == "bin" and n.get("op") in (">", ">=", "<=", "<"):
                     k = const_int(F, n.get("r"))
                     if not isinstance(k, int) or k < 5:
                         continue
+                    if n["op"] in ("<=", "<"):
+                        # `if count <= k { return None }` is the same limit written as the early exit
+                        n = dict(n, op=">" if n["op"] == "<=" else ">=")
                     lhs = n["l"]
                     if lhs.get("k") == "local" and lhs.get("id") in lets:
                         lhs = lets[lhs["id"]]
@@ -93,5 +98,13 @@ def run(F, tier):
     v4.v3(rep, F)
     v4.v4(rep, F, tms)
     v4.v4s(rep, F, tms)
+    # the value helpers the rules read (code words found in a narrative, a currency, a sum): V4 sees them as one
+    # atom; what they compute is compared with the reviewed reference like a parser's accept condition / value
+    import re
+    from . import accept
+    rh = re.compile(r"^messages::\w+::\w+::(?!parse_|validate_|has_reject_codes$|has_return_codes$|is_cover_message$|"
+                    r"is_stp_message$|is_stp_compliant$)\w+$")
+    accept.u6(rep, F, ("rule-helpers", rh, 14))
+    accept.u7(rep, F, ("rule-helpers", rh, 2))
     rep.sample({"rule_fn_counts": rep.rules.get("V1n", {}).get("counts")})
     return rep
